@@ -152,6 +152,114 @@ BUILTIN_METHOD_NAMES = (STR_TO_STR | STR_TO_INT | STR_TO_LIST | LIST_ORDERED | K
                         | {"pop", "get", "items", "keys", "values", "index", "count", "read", "write", "close", "seek", "tell"})
 
 
+class ExtModel:
+    """what the getters of the (not type-analysed) DEX object model hand out: for a method name, do the classes
+    that define it return one of their own stored mutable containers (`return self.keys`) or a fresh value?"""
+
+    def __init__(self, trees):
+        self.classes = {}  # name -> (relpath, ClassDef)
+        for rp, tree in trees.items():
+            for n in tree.body:
+                if isinstance(n, ast.ClassDef):
+                    self.classes.setdefault(n.name, (rp, n))
+        self.by_method = {}
+        for cname, (rp, c) in self.classes.items():
+            for m in c.body:
+                if isinstance(m, (ast.FunctionDef, ast.AsyncFunctionDef)):
+                    self.by_method.setdefault(m.name, []).append((cname, m))
+        self._attr_kind = {}
+        self._cache = {}
+
+    def _mro(self, cname, seen=None):
+        seen = seen if seen is not None else []
+        if cname in seen or cname not in self.classes:
+            return seen
+        seen.append(cname)
+        for b in self.classes[cname][1].bases:
+            bn = b.id if isinstance(b, ast.Name) else (b.attr if isinstance(b, ast.Attribute) else None)
+            if bn:
+                self._mro(bn, seen)
+        return seen
+
+    def method(self, cname, name):
+        for k in self._mro(cname):
+            for m in self.classes[k][1].body:
+                if isinstance(m, (ast.FunctionDef, ast.AsyncFunctionDef)) and m.name == name:
+                    return k, m
+        return None, None
+
+    def attr_kind(self, cname, attr):
+        """'list' | 'dict' | 'set' when the class provably stores such a container in self.<attr>, else None"""
+        key = (cname, attr)
+        if key in self._attr_kind:
+            return self._attr_kind[key]
+        kind = None
+        other = False
+        for k in self._mro(cname):
+            for n in ast.walk(self.classes[k][1]):
+                if isinstance(n, (ast.Assign, ast.AnnAssign)) and getattr(n, "value", None) is not None:
+                    tg = n.targets if isinstance(n, ast.Assign) else [n.target]
+                    for t in tg:
+                        if isinstance(t, ast.Attribute) and t.attr == attr and isinstance(t.value, ast.Name) and t.value.id == "self":
+                            v = n.value
+                            if isinstance(v, (ast.List, ast.ListComp)) or (isinstance(v, ast.Call) and isinstance(v.func, ast.Name) and v.func.id in ("list", "sorted")):
+                                kind = kind or "list"
+                            elif isinstance(v, (ast.Dict, ast.DictComp)) or (isinstance(v, ast.Call) and isinstance(v.func, ast.Name) and v.func.id in ("dict", "defaultdict", "OrderedDict")):
+                                kind = kind or "dict"
+                            elif isinstance(v, (ast.Set, ast.SetComp)) or (isinstance(v, ast.Call) and isinstance(v.func, ast.Name) and v.func.id == "set"):
+                                kind = kind or "set"
+                            elif not (isinstance(v, ast.Constant) and v.value is None):
+                                other = True
+                elif isinstance(n, ast.Call) and isinstance(n.func, ast.Attribute) and n.func.attr in ("append", "extend", "insert") \
+                        and isinstance(n.func.value, ast.Attribute) and n.func.value.attr == attr \
+                        and isinstance(n.func.value.value, ast.Name) and n.func.value.value.id == "self":
+                    kind = kind or "list"
+        self._attr_kind[key] = kind
+        return kind
+
+    def returns(self, cname, fn, depth=0):
+        """-> list of ('stored', class, attr, kind) | ('fresh',) | ('unknown',) for each return of fn"""
+        out = []
+        for n in ast.walk(fn):
+            if isinstance(n, (ast.Yield, ast.YieldFrom)):
+                return [("fresh",)]
+        for n in ast.walk(fn):
+            if not isinstance(n, ast.Return) or n.value is None:
+                continue
+            v = n.value
+            if isinstance(v, ast.Attribute) and isinstance(v.value, ast.Name) and v.value.id == "self":
+                k = self.attr_kind(cname, v.attr)
+                out.append(("stored", cname, v.attr, k) if k else ("unknown",))
+            elif isinstance(v, ast.Call) and isinstance(v.func, ast.Attribute) and isinstance(v.func.value, ast.Name) \
+                    and v.func.value.id == "self" and not v.args and not v.keywords and depth < 3:
+                k2, m2 = self.method(cname, v.func.attr)
+                out += self.returns(cname, m2, depth + 1) if m2 is not None else [("unknown",)]
+            elif isinstance(v, (ast.List, ast.ListComp, ast.Dict, ast.DictComp, ast.Set, ast.SetComp, ast.Tuple, ast.Constant, ast.JoinedStr,
+                                ast.BinOp, ast.Compare, ast.BoolOp, ast.UnaryOp, ast.GeneratorExp)):
+                out.append(("fresh",))
+            elif isinstance(v, ast.Subscript) and isinstance(v.slice, ast.Slice):
+                out.append(("fresh",))
+            elif isinstance(v, ast.Call) and isinstance(v.func, ast.Name) and v.func.id in ("list", "sorted", "dict", "set", "tuple", "str", "int", "len", "bytes", "bytearray", "frozenset"):
+                out.append(("fresh",))
+            elif isinstance(v, ast.Call) and isinstance(v.func, ast.Attribute) and v.func.attr in ("copy", "format", "join", "decode", "encode"):
+                out.append(("fresh",))
+            else:
+                out.append(("unknown",))
+        return out or [("fresh",)]
+
+    def getter(self, name):
+        """summary over every class that defines method `name`: list of ('stored', class, attr, kind)"""
+        r = self._cache.get(name)
+        if r is None:
+            r = []
+            for cname, fn in self.by_method.get(name, ()):
+                for x in self.returns(cname, fn):
+                    if x[0] == "stored" and x not in r:
+                        r.append(x)
+            self._cache[name] = r
+        return r
+
+
 class Table(dict):
     """dict that records which scope read which key (dependency tracking for the worklist)."""
 
@@ -170,9 +278,11 @@ class Table(dict):
 class Pkg:
     """type inference over `trees` (relpath -> ast.Module)."""
 
-    def __init__(self, trees, dotted_of=None, closed_world=True):
+    def __init__(self, trees, dotted_of=None, closed_world=True, ext=None):
         self.trees = trees
         self.closed_world = closed_world
+        self.ext = ext  # ExtModel of the object model outside the analysed package (or None)
+        self.ext_sites = {}
         self.dotted = dotted_of or {rp: (rp[:-len("/__init__.py")] if rp.endswith("/__init__.py") else rp[:-3]).replace("/", ".") for rp in trees}
         self.by_dotted = {v: k for k, v in self.dotted.items()}
         self.scopes = {}
@@ -1149,6 +1259,16 @@ class Pkg:
             defs = self.methods_by_name.get(m, ()) if not self.sites(rt) else ()
             for f in defs:
                 r = join(r, self.call_scope(f, pos, kws, None, star))
+            if not defs and self.ext is not None and not self.sites(rt) and m not in BUILTIN_METHOD_NAMES:
+                stored = self.ext.getter(m)
+                for kind in sorted({x[3] for x in stored}):
+                    # the getter of some class of the object model returns its own container: an object that outlives this call
+                    sid = self.new_site(n, kind, sc, "ext:" + m)
+                    self.upd(self.elem, sid, TOP)
+                    if kind == "dict":
+                        self.upd(self.val, sid, TOP)
+                    self.ext_sites[sid] = (m, [x for x in stored if x[3] == kind])
+                    r = join(r, self.site_ty(sid))
             if not defs or not self.closed_world or m in BUILTIN_METHOD_NAMES:
                 # closed world by name: a method name defined by the analysed package, used on a receiver of
                 # unknown type inside the package, denotes one of those definitions (declared assumption)
